@@ -17,16 +17,8 @@ HARNESSES = [dict(name="session", pkg="./pkg/session/", test="TestVerifC17", fil
              dict(name="pppoe", pkg="./internal/pppoe/", test="TestVerifC17Callers", timeout=600,
                   files=[("internal/pppoe/zz_verif_c17_test.go", "harness/C17/zz_verif_c17_pppoe_test.go")])]
 MODEL_NEEDS_IMPL = True
-# Model variants: "repaired" = every recorded repair; "ha_install_unclaimed" = /repo HEAD's ipoe restoreFromHASync, which installs the
-# sessions synced from the formerly active node without MixedAccess and without a claim (only `A` ops of ripoe cases depend on it).
-# Every finding fixed in /repo (94649ad, c1f4ba1, 49433a1, d2827a3) is part of both variants: a regression there is a VIOLATION.
-VARIANTS = ["repaired", "ha_install_unclaimed"]
-
-
-def signature(case, impl, models):
-    if case.startswith("ripoe") and any(t[0] == "A" for t in case.split()[1:]) and impl == models.get("ha_install_unclaimed"):
-        return "ipoe-ha-promoted-session-without-claim"
-    return None
+# No model variants: every recorded C17 finding is fixed in /repo (94649ad, c1f4ba1, 49433a1, d2827a3, e71725e); the model is what HEAD does and
+# a regression to any of them is a VIOLATION.
 RULE = ("seq: random sequential histories (1..40 ops) of Claim/Release/IsOwner/Lookup by 2..5 sessions of both protocols "
         "(plus rare foreign protocol strings, empty session ids, Owner.Key different from the claimed key) over 1..4 tuples "
         "drawn from a pool with colliding and non-colliding shard hashes, same MAC on different C-VLANs, VLAN 0/65535; "
